@@ -195,14 +195,15 @@ def _marker_probe():
 def main(tier):
     rep = common.Report(PID, tier)
     spec = os.path.join(common.VERIF, "spec")
-    deep, emit, sim = ((3, 3, 4), (3, 2, 2), (25, 5)) if tier == "quick" else ((4, 3, 4), (3, 3, 3), (400, 6))
-    with open(os.path.join(spec, "_gen_NP_deep.cfg"), "w") as f:
-        f.write(_cfg(*deep, view=True))
-    r1 = require_ok(run_tlc("NamedPaths", "_gen_NP_deep.cfg", timeout=1500, keep_stdout=False), "NamedPaths deep")
-    rep.add_tlc(f"NamedPaths exhaustive on the abstract store: {deep[0]} members, lists <= {deep[1]}, sequences <= {deep[2]}", r1)
-    if r1.invariant_violated:
-        rep.violation({"kind": "spec", "invariant": r1.invariant_violated, "tail": r1.stdout[-1500:]})
-        return rep.finish()
+    deeps, emit, sim = ([(3, 3, 4)], (3, 2, 2), (25, 5)) if tier == "quick" else ([(3, 3, 4), (4, 3, 3), (4, 2, 4)], (3, 3, 3), (400, 6))
+    for deep in deeps:
+        with open(os.path.join(spec, "_gen_NP_deep.cfg"), "w") as f:
+            f.write(_cfg(*deep, view=True))
+        r1 = require_ok(run_tlc("NamedPaths", "_gen_NP_deep.cfg", timeout=2400, keep_stdout=False), "NamedPaths deep")
+        rep.add_tlc(f"NamedPaths exhaustive on the abstract store: {deep[0]} members, lists <= {deep[1]} (identity-less members may repeat), sequences <= {deep[2]}", r1)
+        if r1.invariant_violated:
+            rep.violation({"kind": "spec", "invariant": r1.invariant_violated, "tail": r1.stdout[-1500:]})
+            return rep.finish()
     with open(os.path.join(spec, "_gen_NP_emit.cfg"), "w") as f:
         f.write(_cfg(*emit, emit=True))
     r2 = require_ok(run_tlc("NamedPaths", "_gen_NP_emit.cfg", timeout=1500, keep_stdout=False), "NamedPaths emit")
